@@ -3,6 +3,37 @@ import json
 from .. import core, genproj, directed
 from . import main_common as mcn
 
+def clean_runs(laze, files, steps):
+    """`laze clean` after a generation, in one project directory. step = dict(local=dir|None, unused, verbose, ninja_rc, build_dir)
+    -> list of dict(rc, ninja_argv)"""
+    import os, shutil, subprocess, tempfile
+    from .. import e2e, proj
+    tmp = tempfile.mkdtemp(prefix=e2e.SCRATCH_PREFIX); root = os.path.join(tmp, "p")
+    try:
+        proj.render(files, root)
+        bindir = os.path.join(tmp, "bin"); os.makedirs(bindir)
+        nj = os.path.join(bindir, "ninja"); open(nj, "w").write(e2e.FAKE_NINJA); os.chmod(nj, 0o755)
+        out = []
+        for st in steps:
+            start = os.path.join(root, st["local"]) if st.get("local") not in (None, ".") else root
+            glob = [] if st.get("local") is not None else ["-g"]
+            bd = ["-B", st["build_dir"]] if st.get("build_dir") else []
+            log = os.path.join(tmp, "ninja.log")
+            env = e2e.clean_env(tmp); env.update(PATH=bindir + ":" + env.get("PATH", ""), LAZE_VERIF_NINJA_LOG=log, LAZE_VERIF_NINJA_RC="0")
+            subprocess.run([laze, "-C", start, "build"] + glob + bd + ["-G"], env=env, capture_output=True, timeout=60)
+            if os.path.exists(log): os.remove(log)
+            env["LAZE_VERIF_NINJA_RC"] = str(st.get("ninja_rc", 0))
+            args = [laze, "-C", start] + (["-v"] if st.get("verbose") else []) + ["clean"] + glob + bd + (["--unused"] if st.get("unused") else [])
+            try:
+                p = subprocess.run(args, env=env, capture_output=True, timeout=60); rc = p.returncode; se = p.stderr.decode("utf-8", "replace")
+            except subprocess.TimeoutExpired:
+                rc, se = "timeout", ""
+            argvs = [ln.split("\x1f") if ln else [] for ln in open(log).read().split("\n")[:-1]] if os.path.exists(log) else []
+            out.append(dict(rc=rc, ninja_argv=argvs, argv=args[1:], stderr=se[-300:]))
+        return out
+    finally:
+        shutil.rmtree(tmp, ignore_errors=True)
+
 def run(rep, tier, seed, rng):
     core.proof_step(rep, "C18", clean=(tier == "thorough"))
     laze = core.build_impl(); driver = core.build_model()
@@ -53,10 +84,43 @@ def run(rep, tier, seed, rng):
                           found_input=(m["kind"] == "ok"))
         if m["kind"] == "ok" and m["ninja"] and (c.get("builders") or c.get("apps")):
             distinct.add(json.dumps((f, c, sc), sort_keys=True))
+    # clean: ninja's clean / cleandead tool on the build file of the mode
+    from concurrent.futures import ThreadPoolExecutor
+    citems = []
+    for k in range(12 if tier == "quick" else 120):
+        f, c = genproj.gen_project(rng, focus=rng.choice([None, "layout"]))
+        import os
+        dirs = sorted({os.path.dirname(x) or "." for x in f})
+        steps = []
+        for _ in range(4):
+            steps.append(dict(local=(rng.choice(dirs) if rng.random() < 0.35 else None), unused=rng.random() < 0.5, verbose=rng.random() < 0.3,
+                              ninja_rc=rng.choice([0, 0, 1, "kill"]), build_dir=rng.choice([None, None, "out", "build/nested"])))
+        citems.append((f, steps))
+    with ThreadPoolExecutor(core.NCPU) as ex:
+        couts = list(ex.map(lambda it: clean_runs(laze, it[0], it[1]), citems))
+    creqs = []; cflat = []
+    for (f, steps), outs in zip(citems, couts):
+        for st, o in zip(steps, outs):
+            creqs.append("clean %s %s %s %s %s" % (core.hexs(st["build_dir"] or "build"), "1" if st.get("local") is not None else "0",
+                                                  "1" if st.get("verbose") else "0", "1" if st.get("unused") else "0", "1" if st.get("ninja_rc", 0) == 0 else "0"))
+            cflat.append((f, st, o))
+    creps = core.run_model(driver, creqs)
+    nclean = 0
+    for (f, st, o), rp in zip(cflat, creps):
+        m = mcn.parse_main_reply(rp); nclean += 1
+        d = []
+        if m["kind"] != "ok": d.append("model: %s" % rp[:80])
+        else:
+            if o["rc"] != m["exit"]: d.append("exit status %s, model %s" % (o["rc"], m["exit"]))
+            if o["ninja_argv"] != m["ninja"]: d.append("ninja invocations %s, model %s" % (o["ninja_argv"], m["ninja"]))
+        if d:
+            ndis += 1
+            rep.violation("`laze clean` differs from the model: " + "; ".join(d)[:400], dict(files=f, step=st, argv=o["argv"], stderr=o["stderr"]), found_input=True)
+    rep.cov.update(clean_runs=nclean)
     rep.cov.update(evaluations=len(results), distinct_nontrivial=len(distinct),
                    rule="directed + random projects; per project a sequence in one build directory: a wide run, then 3 runs with random --builders/--apps subsets "
                         "(served from the wide run's cache), random -j/-k/-v and scripted ninja exit codes 0/1/2, sometimes --generate-only; exit status and the exact "
                         "ninja argument vector are compared with the model; non-trivial = a run with a non-empty selection that invokes ninja",
                    samples=[dict(cli=results[1][1], scenario=results[1][2], ninja_argv=results[1][3]["ninja_argv"])] if len(results) > 1 else [],
                    cache_hits=nhit, disagreements=ndis)
-    rep.assumptions.append("process spawning is replaced by a fake ninja on PATH that logs its arguments and exits as scripted; `clean` is covered by theorem only")
+    rep.assumptions.append("process spawning is replaced by a fake ninja on PATH that logs its arguments and exits (or kills itself) as scripted; `clean [--unused] [-v] [-B dir]` in global and local mode is compared with the model's clean_argv")
